@@ -55,6 +55,28 @@ Part F (two requests)  the real run_dassh_orifice (with _setup_input_orifice,
                        equal the twin's row by row (1e-9 relative); recycle
                        on: the documented reuse must return what the
                        directory held and must not crash.
+Part G (iterations)    hand-over of the distributed flows to the real DASSH
+                       iteration and collection of its results, on cores where
+                       an assembly type that is NOT grouped sits behind, in
+                       front of (centre) or between the grouped ones, and with
+                       double-ducted grouped assemblies (20 % bypass flow).
+                       "handover": real group_by_power, harness flows per
+                       group, real _setup_input_orifice (every grouped
+                       assembly's boundary condition must be its group's flow
+                       at ITS OWN position) and real run_dassh_orifice (saved
+                       Reactor ran every grouped assembly with that flow; the
+                       collected table reports the flow each assembly ran
+                       with).  "iterate": the whole real optimize(), three
+                       iterations; per iteration: equal flow inside a group in
+                       the run itself, data.csv flows = flows of the run, sum
+                       of the given flows = Q/(cp dT) of the harness's power
+                       in iteration 1 and = (heat the grouped assemblies
+                       carried out of the previous sweep, harness evaluation
+                       of the saved Reactor) / (cp dT) afterwards (the sweeps
+                       exchange 1..6 % of the heat with ungrouped neighbours,
+                       so the plain Q/(cp dT) is not exact after iteration 1);
+                       orificing_result_assembly.csv flows = flows of the last
+                       run.
 
 Previous results in parts B and C cover one and two time steps (row blocks
 as _get_dassh_results stacks them); the required total stays Q/(cp dT) of the
@@ -1494,7 +1516,10 @@ def main(run):
                 'option name (x layout, axial cells in thorough); each is a distinct input. '
                 'F: histories [request 1, request 2] in one directory: power vector x request 2 x '
                 'recycle flag x state left by request 1, direct run_dassh_orifice calls and whole '
-                'optimize() runs; each is a distinct history.')
+                'optimize() runs; each is a distinct history. '
+                'G: layout of grouped / ungrouped types x single / double duct x requested groups, as '
+                'direct hand-over + one real iteration and as whole optimize() runs; each is a '
+                'distinct input.')
     run.assumptions = [
         'dassh.Material(sodium_se2anl_425).heat_capacity (constant) is the cp of Q/(cp dT)',
         'the parametric sweep table and the sweep that yields previous results are synthetic '
